@@ -24,6 +24,9 @@ pub struct SrcCase {
     /// added to a failure's features as `tag:<t>` (lets a known-finding signature name its probe)
     #[serde(default)]
     pub tags: Vec<String>,
+    /// also run with a GC cycle started at every `stride`-th maybe_gc call below `max_start`, three paces, quarantine on
+    #[serde(default)]
+    pub gc_sweep: Option<(u32, u32)>,
 }
 
 fn default_main() -> String {
@@ -46,7 +49,7 @@ impl Prop for SrcProp {
         0
     }
     fn strategy(&self, _tier: Tier, _f: &Findings) -> BoxedStrategy<Self::Case> {
-        Just(SrcCase { files: single("0"), main: default_main(), stdout: None, end: "done".into(), budgets: vec![], tags: vec![] }).boxed()
+        Just(SrcCase { files: single("0"), main: default_main(), stdout: None, end: "done".into(), budgets: vec![], tags: vec![], gc_sweep: None }).boxed()
     }
     fn judge(&self, c: &Self::Case, env: &mut Env) -> Verdict {
         match self.judge_inner(c, env) {
@@ -95,6 +98,31 @@ impl SrcProp {
             if let Some(exp) = &c.stdout {
                 if &r.stdout != exp {
                     return Verdict::Fail(Failure::new("OutcomeMismatch", format!("expected output {exp:?} got {:?}", r.stdout)).feat(format!("budget:{b}")));
+                }
+            }
+        }
+        if let Some((max_start, stride)) = c.gc_sweep {
+            let mut variants = vec![];
+            let mut start = 0;
+            while start < max_start {
+                for pace in [2u8, 4, 6] {
+                    variants.push(Variant { gc: Some(GcSpec::StartAt { start, pace }), quarantine: Some(true), ..Variant::sel(0) });
+                }
+                start += stride.max(1);
+            }
+            let outs = try_exec!(env.run_var(&c.files, &c.main, &RunOpts::default(), &variants));
+            st.evals += outs.len() as u64;
+            for (r, v) in outs.iter().zip(variants.iter()) {
+                if let Some(f) = crash_failure(r) {
+                    return Verdict::Fail(f.feat(format!("sched:{:?}", v.gc)));
+                }
+                let got = match &r.end {
+                    RunEnd::Done => "done".to_string(),
+                    RunEnd::Error { kind, .. } => kind.tag().to_string(),
+                    other => format!("{other:?}"),
+                };
+                if got != c.end || c.stdout.as_ref().map(|e| e != &r.stdout).unwrap_or(false) {
+                    return Verdict::Fail(Failure::new("OutcomeMismatch", format!("under GC schedule {:?}: end {got}, output {:?}", v.gc, r.stdout)));
                 }
             }
         }
